@@ -687,11 +687,8 @@ theorem reseal_after_rename (hS : Setting env rn cs o) (w : Written)
 /-! ### 5. the same move without `-dr` -/
 
 /-- the old path is not ignored -/
-theorem src_not_hit (hM : Moved (hit0 env o) rn cs cs2 a b c) : hit0 env o a = false := by
-  obtain ⟨hp, hk⟩ := (MhlProps.C02.visible_iff _ _ a false).1 hM.srcVisible
-  have hne : a ≠ [] := (MhlProps.C02.visible_relative _ _ a false hM.srcVisible).2.1
-  have := hk a.length (by cases a <;> simp_all) (Nat.le_refl _)
-  simpa using this
+theorem src_not_hit (hM : Moved (hit0 env o) rn cs cs2 a b c) : hitAbove (hit0 env o) a = false :=
+  MhlProps.C03.hitAbove_false_of_visible _ _ a false hM.srcVisible
 
 /-- what verify / diff / create (all without rename detection) see on the moved tree: exactly `a` is missing -/
 theorem moved_missing (hS : Setting env rn cs o) (w : Written)
